@@ -121,11 +121,14 @@ def cases(tier, inst):
             continue
         for hh, hc in ((1.0, 1.0), (0.5, 2.0)):
             for ui in (0, 1):
-                yield {"streams": ms, "htc": [hh, hc], "uset": ui, "inst": list(inst)}
+                yield {"streams": ms, "htc": [hh, hc], "uset": ui, "inst": list(inst), "cost": (hh != 1.0 and ui == 1)}
     if tier == "quick":
         for ms in P.stream_multisets(inst, K, 3, cps=(1,), dts=(1,), iso=False, min_n=3):
             if len({A.kind_of(s) for s in ms}) == 2:
                 yield {"streams": ms, "htc": [2.0, 0.5], "uset": 0, "inst": list(inst)}
+
+
+COST_OPTS = {"FIXED_COST": 4000.5, "VARIABLE_COST": 650.75, "COST_EXP": 0.8, "DISCOUNT_RATE": 0.05, "SERV_LIFE": 12.5}
 
 
 def build(case):
@@ -133,7 +136,10 @@ def build(case):
     T = A.lattice(inst, 4)
     step = inst[1]
     streams = [tuple(s) for s in case["streams"]]
-    prob = A.problem(streams, ["A"] * len(streams), options={"DO_AREA_TARGETING": True})
+    opts = {"DO_AREA_TARGETING": True}
+    if case.get("cost"):
+        opts.update(COST_OPTS)
+    prob = A.problem(streams, ["A"] * len(streams), options=opts)
     for sd, st in zip(prob["streams"], streams):
         sd["htc"] = case["htc"][0] if A.kind_of(st) == "H" else case["htc"][1]
     if case["uset"] == 1:
@@ -181,7 +187,11 @@ def run(case, res: Result):
                                                      hot=[list(map(float, e)) for e in hot], cold=[list(map(float, e)) for e in cold]),
                     f"area_ne_definition:{gap}")
     # cost laws with the configured parameters
-    cfg = master.config
+    class _C: pass
+    cfg = _C()
+    dflt = {"FIXED_COST": 0, "VARIABLE_COST": 10000, "COST_EXP": 0.6, "DISCOUNT_RATE": 0.07, "SERV_LIFE": 20}
+    for k_, v_ in dflt.items():
+        setattr(cfg, k_, (prob["options"] or {}).get(k_, v_))      # the values the CALLER supplied (documented defaults otherwise)
     if units is None or units <= 0:
         res.violate("units_not_positive", case, detail, "units_not_positive:" + tag)
         return
@@ -190,7 +200,10 @@ def run(case, res: Result):
         res.violate("capital_cost_law", case, dict(detail, expected=exp_cap), "capital_cost_law:" + tag)
     i, nyr = cfg.DISCOUNT_RATE, cfg.SERV_LIFE
     crf = ann / cap if cap else float("nan")
-    if abs(sum(crf / (1 + i) ** k for k in range(1, int(nyr) + 1)) - 1.0) > 1e-9:
+    exp_crf = i * (1 + i) ** nyr / ((1 + i) ** nyr - 1)
+    if abs(crf - exp_crf) > 1e-9:
+        res.violate("capital_recovery_factor", case, dict(detail, annualised=ann, crf=crf, expected_crf=exp_crf, rate=i, life=nyr), "capital_recovery_factor:" + tag)
+    if float(nyr).is_integer() and abs(sum(crf / (1 + i) ** k for k in range(1, int(nyr) + 1)) - 1.0) > 1e-9:
         res.violate("annuity_identity", case, dict(detail, annualised=ann, crf=crf), "annuity_identity:" + tag)
 
 
